@@ -443,6 +443,33 @@ func c18Spaces(tier string) []c18Space {
 		sb.WriteString("}\n")
 		return sb.String()
 	}})
+	// format() texts over a brace alphabet: every string of <= 8 characters over { } a blank (stray, nested, unclosed and
+	// adjacent brace codes inside words), in a text statement and inline
+	const braceMax = 8
+	braceTotal := uint64(0)
+	var braceOff []uint64
+	for l := 0; l <= braceMax; l++ {
+		braceOff = append(braceOff, braceTotal)
+		braceTotal += 1 << (2 * uint(l))
+	}
+	spaces = append(spaces, c18Space{kind: "format-brace-texts", total: braceTotal * 2, input: func(idx uint64) string {
+		inline := idx%2 == 1
+		idx /= 2
+		l := 0
+		for l+1 < len(braceOff) && idx >= braceOff[l+1] {
+			l++
+		}
+		x := idx - braceOff[l]
+		var sb strings.Builder
+		for i := 0; i < l; i++ {
+			sb.WriteByte("{}a "[x&3])
+			x >>= 2
+		}
+		if inline {
+			return "script S {\n\tmsgbox(format(\"" + sb.String() + "\", \"TEST\", 30))\n}\n"
+		}
+		return "text T {\n\tformat(\"" + sb.String() + "\")\n}\n"
+	}})
 	// long tokens where another token is expected (error paths quote the unexpected token): a string, an identifier, a raw
 	// string or a number of N characters for every N up to 400, filled with 1-, 2-, 3- and 4-byte characters, in 8 places
 	// where the grammar wants something else
@@ -829,5 +856,5 @@ func runC18(tier string) int {
 		"configurations are a covering set, not the full matrix: every option value appears in at least one configuration",
 		"an error must be a parser.ParseError with 1 <= start line <= end line <= number of lines (counting the empty line after a final newline)")
 	return r.Finish(r.Get("evaluations"), r.Get("nontrivial"),
-		"(a) every sequence of <= L tokens from a 57-lexeme alphabet after each of 29 context prefixes, with 3 suffixes; (b) every single deviation (truncation, deletion, replacement or insertion by every alphabet token) of 12 seed programs that use every production (thorough: pairs of deviations on the small seeds); (c) every sequence of <= S well-formed statement templates (29 templates, shared with C01); (d) every sequence of <= D constant definitions over three names whose values mention each other, followed by a program using them at every use site; (e) every integer from 0 to 70000 (thorough 2^20) and 20 values around 2^31, 2^32, 2^63, 2^64 and powers of ten, decimal and hex, at every position that interprets a number; (e') every scaled program (templates repeated K times, blocks nested K deep, switches with K cases); (i) poryswitch cases and block statements nested alternately K deep for every K <= 48 (4 block kinds, brace and colon cases, an inline text or moves() at the core); (h) a string / identifier / raw string / number token of every length up to 400 characters of 1 to 4 bytes each in 8 places where the grammar expects another token; (g) text literals of every length up to 2100 bytes (and 11 lengths up to 70000) x 8 start/end shapes (unclosed / closed brace code, trailing backslash, multi-byte end, spaces only) x 4 origins; (f) every string of <= N characters over 23 characters incl. multi-byte letters, a 3-byte non-letter, U+FFFD, NUL, quote, backtick, CR, bare and inside 'script S { x('; each input under a covering set of configurations (optimize, line markers/path, switches, font file/default font, command configs incl. argument positions -1 and 3 and one whose keys are the identifier-like literals of the compiler's source and its keywords, normal and lint); evaluations = input x configuration runs; non-trivial = the input is rejected (an error path is taken)")
+		"(a) every sequence of <= L tokens from a 57-lexeme alphabet after each of 29 context prefixes, with 3 suffixes; (b) every single deviation (truncation, deletion, replacement or insertion by every alphabet token) of 12 seed programs that use every production (thorough: pairs of deviations on the small seeds); (c) every sequence of <= S well-formed statement templates (29 templates, shared with C01); (d) every sequence of <= D constant definitions over three names whose values mention each other, followed by a program using them at every use site; (e) every integer from 0 to 70000 (thorough 2^20) and 20 values around 2^31, 2^32, 2^63, 2^64 and powers of ten, decimal and hex, at every position that interprets a number; (e') every scaled program (templates repeated K times, blocks nested K deep, switches with K cases); (j) format() of every string of <= 8 characters over { } a and blank; (i) poryswitch cases and block statements nested alternately K deep for every K <= 48 (4 block kinds, brace and colon cases, an inline text or moves() at the core); (h) a string / identifier / raw string / number token of every length up to 400 characters of 1 to 4 bytes each in 8 places where the grammar expects another token; (g) text literals of every length up to 2100 bytes (and 11 lengths up to 70000) x 8 start/end shapes (unclosed / closed brace code, trailing backslash, multi-byte end, spaces only) x 4 origins; (f) every string of <= N characters over 23 characters incl. multi-byte letters, a 3-byte non-letter, U+FFFD, NUL, quote, backtick, CR, bare and inside 'script S { x('; each input under a covering set of configurations (optimize, line markers/path, switches, font file/default font, command configs incl. argument positions -1 and 3 and one whose keys are the identifier-like literals of the compiler's source and its keywords, normal and lint); evaluations = input x configuration runs; non-trivial = the input is rejected (an error path is taken)")
 }
